@@ -148,7 +148,7 @@ IMPORTS = ['Coq.Lists.List', 'Coq.NArith.NArith', 'Coq.Bool.Bool', 'SV.KV.KvBase
 IMPORTS_LOOP = ['Coq.Lists.List', 'Coq.NArith.NArith', 'Coq.Bool.Bool', 'SV.KV.KvBase', 'SV.KV.KvLex', 'SV.KV.KvParse',
                 'SV.KV.KvLoop', 'SV.KV.KvLoopRef', 'SV.KV.KvLoopEquiv', 'SV.KV.KvLoopRoundtrip', 'SV.KV.KvEnum', 'SV.KV.KvLoopEnum',
                 'SV.Gen.KVSer_gen', 'SV.Gen.KVLoop_gen']
-IMPORTS_AUX = ['SV.KV.KvWriter', 'SV.KV.KvFlagProg', 'SV.KV.KvWProg', 'SV.Gen.KVAux_gen']
+IMPORTS_AUX = ['SV.KV.KvWriter', 'SV.KV.KvFlagProg', 'SV.KV.KvWProg', 'SV.KV.KvShift', 'SV.Gen.KVAux_gen']
 IMPORTS_REFINE = ['Coq.Lists.List', 'Coq.NArith.NArith', 'Coq.Bool.Bool', 'SV.Text.Str', 'SV.Text.Prog', 'SV.Text.Tokenizer',
                   'SV.Text.TokGen', 'SV.KV.KvBase', 'SV.KV.KvLex', 'SV.KV.KvParse', 'SV.KV.KvRefine', 'SV.Gen.KVSer_gen']
 PRE = '''Import ListNotations. Open Scope N_scope.
@@ -1651,6 +1651,11 @@ def run(ck: Ck) -> None:
             'serialise_hands_the_writes_of__serialise_to_the_destination_unprocessed_and_returns_them': 'delivery_direct gen_serpaths',
             'serialise_has_a_path_for_every_way_of_calling(file_or_not,indent_braces)': 'delivery_total gen_serpaths',
             'delivery_ok(premise of serialise_delivery)': 'delivery_ok gen_serpaths',
+            # the write templates as sequences of writer lines (KV/KvShift.v): cur_indent exactly once, at the start of each
+            'cur_indent_is_written_exactly_at_the_start_of_every_writer_line(indent_braces=True)':
+                'lines_ok gen_sercfg {| o_indent := nil; o_indent_braces := true; o_start := nil |}',
+            'cur_indent_is_written_exactly_at_the_start_of_every_writer_line(indent_braces=False)':
+                'lines_ok gen_sercfg {| o_indent := nil; o_indent_braces := false; o_start := nil |}',
             # _read_flag as a decision tree (gen_flagprog)
             'read_flag_with_bang_is_the_negated_lookup_of_the_casefolded_rest': 'flagprog_bang_ok gen_flagprog',
             'read_flag_without_bang_is_the_lookup_of_the_casefolded_text': 'flagprog_plain_ok gen_flagprog',
@@ -1740,6 +1745,7 @@ def run(ck: Ck) -> None:
                     'instance:escape_table', 'instance:every_escape_written', 'instance:escape_fast_path',
                     'instance:root_test_of_serialise', 'instance:serialise_hands_the_writes', 'instance:serialise_has_a_path',
                     'instance:delivery_ok', 'instance:all_nine_hypotheses', 'instance:writer_program_writes_are',
+                    'instance:cur_indent_is_written_exactly',
                     'instance:parse_newline_key_test', 'instance:parse_newline_value_test',
                     'instance:parse_loop_', 'instance:parse_checks_after', 'instance:parse_emptiness', 'instance:loop_ok'):
             ck.explain(pre)
